@@ -7,6 +7,7 @@
 import Qfx.Lemmas.CodecScan
 import Qfx.Lemmas.CodecOps
 import Qfx.Lemmas.CodecParseD
+import Qfx.Lemmas.CodecAnyDict
 open Qfx Qfx.Spec
 
 /-- "tag order list vs tag lookup map: two views of the same field set that must stay in step" —
@@ -256,6 +257,35 @@ theorem C10_parse_build_dict_nogroups (fx : Fixes) (d : Dicts) (hng : ∀ t, NoG
       refine ⟨tv :: t9 :: t35 :: (pre ++ [t10]), ndMessageD d tv t9 t35 pre t10, hbytes, ?_, rfl, ?_⟩
       · rw [hbytes]; exact parse_wire_D fx tv t9 t35 pre t10 hwm hbl (fun tv _ => hng tv.tag) (hng 10) hh10
       · rw [hbytes]; rfl
+
+/-- "PARSING THOSE BYTES YIELDS THE SAME FIELDS AND VALUES", ANY DICTIONARIES (the corrected `C10_parse_build_full`): for every message
+    built by proper, SOH-free operations with BeginString and MsgType set, `ParseMessage` with ANY dictionaries `d` — application
+    dictionaries that define repeating groups included, transport dictionaries, user-defined tags — succeeds on the bytes of `build`,
+    `Message.fields` is exactly the written TagValue list and `Bytes()` returns the bytes. -/
+theorem C10_parse_build_anydict (d : Dicts)
+    (ops : List MOp) (hp : ∀ op ∈ ops, op.proper ∧ op.wire) (m : Message)
+    (hrun : runMOps ops Message.new = .ok m)
+    (h8 : (alFind m.header.lookup 8).isSome = true) (h35 : (alFind m.header.lookup 35).isSome = true)
+    (bytes : Bytes) (m' : Message) (hbuild : m.build Fixes.cur = .ok (bytes, m')) (hsmall : bytes.length < 9223372036854775808) :
+    ∃ (L : List TagValue) (p : Message), bytes = wireOf L ∧ parseMessage Fixes.cur d bytes = .ok p ∧ p.fields = L ∧
+      p.bytes Fixes.cur = .ok (bytes, p) := by
+  obtain ⟨hb, hw⟩ := runMOps_wired ops _ m Built.new Wired.new hp hrun
+  cases hf8 : alFind m.header.lookup 8 with
+  | none => rw [hf8] at h8; cases h8
+  | some f8 =>
+    cases hf35 : alFind m.header.lookup 35 with
+    | none => rw [hf35] at h35; cases h35
+    | some f35 =>
+      obtain ⟨l, hl⟩ := hb.ph.owned 8 f8 hf8
+      subst hl
+      obtain ⟨tv, rest, hl, ht⟩ := hb.ph.head 8 l hf8
+      subst hl
+      have hone := (hb.ph.special 8 _ hf8 tv (by simp) (Or.inl ht)).1
+      rw [hone] at hf8
+      obtain ⟨t9, t35, pre, t10, hbytes, hwm, hbl⟩ := build_wire m hb hw tv f35 hf8 hf35 bytes m' hbuild hsmall
+      obtain ⟨c', hparse⟩ := parse_wire_anydict (d := d) tv t9 t35 pre t10 hwm hbl
+      refine ⟨tv :: t9 :: t35 :: (pre ++ [t10]), _, hbytes, by rw [hbytes]; exact hparse, rfl, ?_⟩
+      rw [hbytes]; rfl
 
 /-- THE MONITOR'S OWN PREDICATE.  The independent tag=value scanner of `Qfx.Spec.Codec` (the one the monitor runs on the
     implementation's output) reads every built message back as exactly the list of TagValues that was written, and its
